@@ -106,6 +106,44 @@ def B_reach(outs):
     return order
 
 
+def nested_varying_cases():
+    """An OUTER function (fixed Python body) that calls an INNER function whose body differs from call to call (it depends on the static
+    type of its argument, or alternates): the model then needs two definitions of the inner function - build must refuse."""
+    import spox.opset.ai.onnx.v17 as op
+    from spox._function import to_function
+
+    out = []
+    for where in ("twice-in-main", "main-and-if-body", "if-body-twice", "also-direct"):
+        for how in ("by-type", "alternating"):
+            n = [0]
+
+            def inner_body(x):
+                n[0] += 1
+                if how == "by-type":
+                    return [op.mul(x, op.const(np.array(float(x.unwrap_tensor().shape[0]), np.float32)))]
+                return [op.relu(x)] if n[0] % 2 else [op.neg(x)]
+
+            _inner = to_function("Inner", "verif.nest")(inner_body)
+            inner = lambda x: list(_inner(x))  # noqa: E731
+            _outer = to_function("Outer", "verif.nest")(lambda x: [op.add(inner(x)[0], x)])
+            outer = lambda x: list(_outer(x))  # noqa: E731
+            a = B.argument(B.Tensor(np.float32, (2,)))
+            b = B.argument(B.Tensor(np.float32, (3,))) if how == "by-type" else B.argument(B.Tensor(np.float32, (2,)))
+            c = B.argument(B.Tensor(np.bool_, ()))
+            if where == "twice-in-main":
+                outs = {"p": outer(a)[0], "q": outer(b)[0]}
+            elif where == "main-and-if-body":
+                outs = {"p": outer(a)[0], "q": op.if_(c, then_branch=lambda: [outer(b)[0]], else_branch=lambda: [op.identity(b)])[0]}
+            elif where == "if-body-twice":
+                outs = {"q": op.if_(c, then_branch=lambda: [outer(a)[0]], else_branch=lambda: [op.reduce_sum(outer(b)[0], keepdims=1) if how == "by-type" else outer(b)[0]])[0]} \
+                    if how != "by-type" else {"p": op.if_(c, then_branch=lambda: [outer(a)[0]], else_branch=lambda: [op.identity(a)])[0],
+                                              "q": op.if_(c, then_branch=lambda: [outer(b)[0]], else_branch=lambda: [op.identity(b)])[0]}
+            else:
+                outs = {"p": outer(a)[0], "q": outer(b)[0], "r": inner(a)[0]}
+            out.append(B.Case({"a": a, "b": b, "c": c}, outs, False, {"nested_varying": f"{where}/{how}"}))
+    return out
+
+
 def run(run: Run) -> int:
     run.check_theorems(PROPS, CONE, thorough_coqchk=(run.tier == "thorough"))
     n = 200 if run.tier == "quick" else 2500
@@ -113,7 +151,8 @@ def run(run: Run) -> int:
     cases = []
     for _ in range(n):
         ins, outs = g.program()
-        cases.append(B.Case(ins, outs, False, {}))
+        cases.append(B.Case(ins, outs, False, {"intent_problems": list(g.intent_problems)}))
+    cases += nested_varying_cases()
     mism = B.correspondence(run, "c14", cases)
     nprng = np.random.RandomState(run.seed)
     hist = collections.Counter()
@@ -123,7 +162,7 @@ def run(run: Run) -> int:
         keys = reachable_functions(list(c.outs.values()))
         varying = [k for k, bodies in keys.items() if len(bodies) > 1]
         hist[("model" if c.model_proto is not None else c.impl.split(" ")[1]) + (" varying" if varying else "") + (" funcs" if keys else "")] += 1
-        probs = []
+        probs = list(c.meta.get("intent_problems", []))
         if c.model_proto is not None:
             m = c.model_proto
             got = [(f.domain, f.name) for f in m.functions]
